@@ -15,12 +15,12 @@ RULE = (
 ASSUMPTIONS = ["key-shaped = tuple (name, int...) whose name is an expression of the plan or the head of a graph key"]
 BUDGET_S = {"quick": 170, "thorough": 3000}
 
-PROFILE_Q = gen.Profile("graphs", max_steps=6, max_rows=10, weights={"cut": 1.0, "partitions": 1.2, "map_partitions": 1.2})
-PROFILE_T = gen.Profile("graphs", max_steps=10, max_rows=16, n_tables=(1, 3), weights={"cut": 1.0, "partitions": 1.2, "map_partitions": 1.2})
+PROFILE_Q = gen.Profile("graphs", max_steps=6, max_rows=10, siblings=25, weights={"cut": 1.0, "partitions": 1.2, "map_partitions": 1.2})
+PROFILE_T = gen.Profile("graphs", max_steps=10, max_rows=16, n_tables=(1, 3), siblings=25, weights={"cut": 1.0, "partitions": 1.2, "map_partitions": 1.2})
 
 
 def systematic(tier):
-    return templates.c01_cases(tier)
+    return templates.c01_cases(tier) + templates.sibling_cases(tier)
 
 
 def strategy(tier):
@@ -70,6 +70,22 @@ def check(case):
             except Exception as e:
                 failures.append(Failure("graph-exec-raises", f"{stage}: {type(e).__name__}: {e}", stage=stage, exc=e).record())
                 break
+        # several values of one program computed together share one graph
+        if not failures and len(prog["steps"]) >= 2:
+            for stage in ("logical", "fused"):
+                lows = {}
+                for vid, v in dvals.items():
+                    if not hasattr(v, "expr"):
+                        continue
+                    try:
+                        lows[vid] = plans.optimize_until(v.expr, stage).lower_completely()
+                    except Exception:
+                        continue
+                for kind, detail in graphcheck.cross_collisions(lows)[:2]:
+                    failures.append(Failure(kind, f"{stage} (values computed together): {detail}", stage=stage, extra={"bucket_hint": kind + "-cross"}).record())
+                if failures:
+                    break
+            classes.append("cross_value_graph")
     classes += ["op:" + s["op"] for s in prog["steps"]]
     return {"nontrivial": nt, "classes": classes, "failures": failures, "sample": interp.describe(prog), "evaluations": 1}
 
